@@ -333,9 +333,9 @@ theorem methods_exact (s : String) :
 
 /-! ### the parse step: every JSON document ends in a configuration or an error -/
 
-/-- `ParseConfig` decodes into the allocated struct, not into the pointer variable (**fails on the tree where
+/-- `ParseConfig` either decodes into the allocated struct or tests the pointer afterwards (**fails on the tree where
 `json.Unmarshal(content, &raw)` lets the document `null` produce `(nil, nil)`**) -/
-theorem gen_parse : Gen.ClientCfg.parseNullGivesNilConfig = false := by decide
+theorem gen_parse : Gen.ClientCfg.parseNullOutcome = "empty-config" ∨ Gen.ClientCfg.parseNullOutcome = "error" := by decide
 
 /-- `cmd/ck-client` uses the result of `ParseConfig` without a nil test: a nil configuration with a nil error is a crash -/
 theorem gen_main_derefs : Gen.ClientCfg.mainUsesConfigWithoutNilTest = true := by decide
@@ -345,21 +345,25 @@ ends in a parse error, a configuration error or a processed configuration — ne
 configuration.  In particular the documents `null` and `{}` and every non-object are *rejected with an error*. -/
 theorem c20_load_total (lower : String → String) (d : Doc) :
     loadDoc lower d ≠ .nilDereference ∧
-    loadDoc lower .null = .configError (.empty "ServerName") ∧
+    (loadDoc lower .null = .configError (.empty "ServerName") ∨ loadDoc lower .null = .parseError) ∧
     loadDoc lower (.object emptyRaw) = .configError (.empty "ServerName") ∧
     loadDoc lower .other = .parseError := by
-  refine ⟨?_, ?_, ?_, ?_⟩
+  have hn : loadDoc lower .null = .configError (.empty "ServerName") ∨ loadDoc lower .null = .parseError := by
+    rcases gen_parse with h | h
+    · left; simp [loadDoc, loadDocWith, parseDoc, h, processRaw, processRawK, emptyRaw]
+    · right; simp [loadDoc, loadDocWith, parseDoc, h]
+  refine ⟨?_, hn, ?_, ?_⟩
   · cases d with
-    | null => simp [loadDoc, loadDocWith, parseDoc, gen_parse]; split <;> simp
+    | null => rcases hn with h | h <;> simp [h]
     | object raw => simp only [loadDoc, loadDocWith, parseDoc]; split <;> simp
     | other => simp [loadDoc, loadDocWith, parseDoc]
-  · simp [loadDoc, loadDocWith, parseDoc, gen_parse, processRaw, processRawK, emptyRaw]
   · simp [loadDoc, loadDocWith, parseDoc, processRaw, processRawK, emptyRaw]
   · simp [loadDoc, loadDocWith, parseDoc]
 
 /-- the pinned `json.Unmarshal(content, &raw)`: the document `null` is not rejected, it kills the client
 (the harness replays it: signature `C20 invalid-config-accepted null-document`) -/
-theorem pinned_null_crashes (lower : String → String) : loadDocWith true lower .null = .nilDereference := rfl
+theorem pinned_null_crashes (lower : String → String) : loadDocWith "nil-config" lower .null = .nilDereference := by
+  simp [loadDocWith, parseDoc]
 
 /-! ## 5. The pinned tree: `KeepAlive = 5` is ignored (explicit pinned right-hand side) -/
 
